@@ -75,6 +75,9 @@ class Composition(object):
         """Add a note to the selected tracks.
 
         Everything container.Track supports in __add__ is accepted.
+
+        Return False, and change nothing, when one of the selected tracks has
+        no room for the note. True otherwise.
         """
         if not hasattr(note, "bar"):
             # A note that one of the selected tracks cannot play is refused
@@ -82,10 +85,16 @@ class Composition(object):
             checked = NoteContainer(note) if isinstance(note, list) else note
             for n in self.selected_tracks:
                 self.tracks[n].check_range(checked)
+            # ...and so is a note for which one of them has no room left in
+            # its unfinished bar (Track.add_notes would return False there)
+            for n in self.selected_tracks:
+                if not self.tracks[n].has_room():
+                    return False
         for (i, n) in enumerate(self.selected_tracks):
             # Every track after the first gets objects of its own: a Bar or
             # NoteContainer shared between tracks would grow in all of them
             self.tracks[n] + (note if i == 0 else copy.deepcopy(note))
+        return True
 
     def set_title(self, title="Untitled", subtitle=""):
         """Set the title and subtitle of the piece."""
